@@ -621,7 +621,7 @@ void h_b_rehash(void)
 
 /* ------------------------------------------------------------------ B3: foreach / foreach_const / clear (C04) */
 #if defined(VF_B) && VF_B == 3
-struct vf_state { size_t m1; int f1; size_t m2; int f2; int s; int ops[2]; size_t m3; int f3; };
+struct vf_state { size_t m1; int f1; size_t m2; int f2; int s; int ops[2]; size_t m3; int f3; int fit; };
 static const struct vf_state vf_states[] = {
     { 3, 0, 3, 0, 0, { 0, 0 } },      /* 0 no rehash pending                                                */
     { 2, 0, 4, 0, 0, { 0, 0 } },      /* 1 grow pending, nothing relocated yet                              */
@@ -636,6 +636,8 @@ static const struct vf_state vf_states[] = {
     { 3, 0, 4, 0, 1, { 0, 0 }, 6, 0 },  /* 10 a SECOND grow requested while the first is pending and partly relocated (seeded change C04-4) */
     { 3, 0, 4, 0, 1, { 1, 0 }, 5, 1 },  /* 11 the same after an insert, other hash function for the second request */
     { 3, 0, 4, 0, 1, { 0, 0 }, 2, 0 },  /* 12 a shrink requested while a grow is pending                       */
+    { 3, 0, 4, 0, 1, { 0, 0 }, 0, 0, 1 },  /* 13 shrink_to_fit while a grow is pending with elements in the new buckets (seeded change C04-5) */
+    { 6, 0, 5, 0, 0, { 0, 0 } },        /* 14 more dirty buckets than elements: the forced completion must not be budgeted by the element count (C04-6) */
 };
 #define VF_NSTATES ((int)(sizeof(vf_states) / sizeof(vf_states[0])))
 #ifndef VF_ST_LO
@@ -731,6 +733,11 @@ void h_b_enum(void)
             int n, grow_relocated, shrinking;
             vf_saw_new_bucket_node = 0;
             vf_build(&h, &m, st->m1, st->f1, st->m2, st->f2, st->ops, st->s);
+            if (st->fit) {
+                VF_ASSERT(H_PENDING(&h) && vf_saw_new_bucket_node, "shrink_to_fit meets a pending grow with elements already in the new buckets");
+                cstl_hash_shrink_to_fit(&h);
+                vf_check_struct(&h, &m);
+            }
             if (st->m3 != 0) {
                 VF_ASSERT(H_PENDING(&h) && vf_saw_new_bucket_node, "the second resize meets a pending grow with elements already in the new buckets");
                 m_resize(&h, st->m3, st->f3);
